@@ -97,7 +97,7 @@ class World:
             with open(os.path.join(SCRATCH, 'f'), 'wb') as f:
                 f.write(b'q' * 300)
             sopts['sftp_factory'] = lambda chan: asyncssh.SFTPServer(chan, chroot=SCRATCH)
-        if prog == 'rfwd':
+        if prog in ('rfwd', 'rfwd-close'):
             class Srv(P.RecServer):
                 def server_requested(self, listen_host, listen_port):
                     return True
@@ -178,8 +178,15 @@ class World:
         await sftp.wait_closed()
 
     async def prog_rfwd(self, conn):
-        lst = await conn.forward_remote_port('', 8022, 'localhost', 22)
+        lst = await conn.forward_remote_port('127.0.0.1', 0, 'localhost', 22)
         self.listener = lst
+        await lst.wait_closed()
+
+    async def prog_rfwd_close(self, conn):
+        """the listener is closed by the application: its cancel request is in flight when the connection goes"""
+        lst = await conn.forward_remote_port('127.0.0.1', 0, 'localhost', 22)
+        self.listener = lst
+        lst.close()
         await lst.wait_closed()
 
     async def prog_rfwd2(self, conn):
@@ -306,7 +313,7 @@ def run(cfg, chooser):
                 raise Livelock('schedule too long')
         # ---- oracle 1: connection still up, channel closed both ways -------
         c_up = pair.c._transport is not None and pair.s._transport is not None
-        single = prog not in ('two', 'sftp', 'sftp-cancel', 'rfwd', 'rfwd2', 'rfwd-timeout')
+        single = prog not in ('two', 'sftp', 'sftp-cancel', 'rfwd', 'rfwd-close', 'rfwd2', 'rfwd-timeout')
         # a side whose application has reading paused with data still buffered keeps its channel until it reads on:
         # close is delivered after the data, not instead of it
         holding = [s_ for s_ in w.env.get('server_sessions', []) if s_.chan is not None and s_.chan._recv_paused and s_.chan._recv_buf]
@@ -699,7 +706,7 @@ def worker(job):
 
 
 def jobs(tier):
-    progs = ['exec', 'stream', 'run', 'sftp', 'sftp-cancel', 'rfwd', 'rfwd2', 'rfwd-timeout']
+    progs = ['exec', 'stream', 'run', 'sftp', 'sftp-cancel', 'rfwd', 'rfwd-close', 'rfwd2', 'rfwd-timeout']
     if tier == 'thorough':
         progs.append('two')
     out = []
@@ -737,7 +744,7 @@ def main(tier, seed):
     acc.merge(core.pmap(connect_worker, connect_jobs()))
     acc.merge(core.pmap(late_wait_worker, late_wait_jobs()))
     rule = ('client programs {exec via callback session, stream session with blocked drain/read, run, '
-            'sftp with outstanding requests, sftp with a request abandoned by its caller before later ones, remote port forward listener, three concurrent remote forward requests '
+            'sftp with outstanding requests, sftp with a request abandoned by its caller before later ones, remote port forward listener, a remote forward listener closed by the application (cancel request in flight), three concurrent remote forward requests '
             'against a slow server application} x server behaviours {echo, '
             'silent, reject exec, close instead of answering, exit at once with data pending, EOF only}; '
             'at every quiescent point the explorer may deliver either direction\'s next packet or inject '
